@@ -11,6 +11,18 @@ TRUST = ("Trusted: the pyvc symbolic interpreter and its use of NumPy object arr
          "mathematical integers, floats as reals in bookkeeping identities. ")
 
 CLAIMED = {
+    'C17': dict(
+        category='proof',
+        text=("Field-wise round trip on the real Tensor.to_dict / Tensor.from_dict / _convert_lists_to_tuples / make_config at levels 0, 1, 2, "
+              "both dictionary generations, resolve_ops, config override; struct, slices, hard-fusion records (symbolic contents), meta-fusion, "
+              "pending permutation, diagonal flag, configuration (symmetry class found again by name for every shipped symmetry, statistics, "
+              "backend), dtype for all five backend dtypes and exact values are restored, the caller's dictionary is not modified, level>=1 "
+              "dictionaries hold only plain containers, incompatible config rejected; split_data_and_meta/combine_data_and_meta are inverse "
+              "on nested dictionaries."),
+        design_ref='DESIGN.md §5 C17',
+        note=TRUST + "Data vectors are concrete arrays (values irrelevant to the field map). MPS/PEPS/environment containers, numpy save/load and HDF5 are NOT covered (external I/O), nor the linear-map claim for to_dict(meta=...).",
+        technique='AST-to-SMT symbolic execution of the real (de)serialisation code with symbolic structure fields; z3',
+    ),
     'C19': dict(
         category='proof',
         text=("Contracts on the real sym_*.fuse, add_charges, zero, Leg.__post_init__, Leg.conj, _Fusion.conj: the current "
